@@ -906,8 +906,8 @@ impl<'value> FileReport<'value> {
         self.status = self.status.and(report.status);
         self.metadata.extend(report.metadata);
         verif_vec_extend(&mut self.not_compliant, report.not_compliant);
-        self.not_applicable.extend(report.not_applicable);
         self.compliant.extend(report.compliant);
+        self.not_applicable.extend(report.not_applicable);
     }
 }
 // ---- canary canary:pre:combine
